@@ -19,7 +19,7 @@ Extracted (data only; control flow is tied by the correspondence engine `tls`):
 import errno
 import re
 
-from extract import src, strip_comments, write, ExtractError, fn_body, REPO
+from extract import src, strip_comments, write, ExtractError, fn_body, fn_body_inlined, REPO
 
 import os
 
@@ -52,15 +52,17 @@ def gen_tls():
     if not m:
         raise ExtractError("tls_new: SSL_set_verify under conn->tls_trust not found")
     mode_trust, cb_trust, mode_default, cb_default = m.groups()
-    hf = re.search(r"X509_VERIFY_PARAM_set_hostflags\s*\(\s*param\s*,\s*([\w\s|]+?)\s*\)", new)
+    # the host-name policy may be set up in a static helper called from tls_new
+    newc = fn_body_inlined(t, "tls_new")
+    hf = re.search(r"X509_VERIFY_PARAM_set_hostflags\s*\(\s*param\s*,\s*([\w\s|]+?)\s*\)", newc)
     if not hf:
         raise ExtractError("tls_new: X509_VERIFY_PARAM_set_hostflags not found")
     hostflag_names = [x.strip() for x in hf.group(1).split("|")]
-    sh = re.search(r"X509_VERIFY_PARAM_set1_host\s*\(\s*param\s*,\s*([^,]+?)\s*,\s*(\w+)\s*\)", new)
+    sh = re.search(r"X509_VERIFY_PARAM_set1_host\s*\(\s*param\s*,\s*([^,]+?)\s*,\s*(\w+)\s*\)", newc)
     if not sh:
         raise ExtractError("tls_new: X509_VERIFY_PARAM_set1_host not found")
     host_expr, host_len = _norm(sh.group(1)), sh.group(2)
-    sni = re.search(r"SSL_set_tlsext_host_name\s*\(\s*tls->ssl\s*,\s*([^)]+?)\s*\)", new)
+    sni = re.search(r"SSL_set_tlsext_host_name\s*\(\s*tls->ssl\s*,\s*([^)]+?)\s*\)", newc)
     sni_expr = _norm(sni.group(1)) if sni else ""
     ssl_h = "/usr/include/openssl/ssl.h"
     v3_h = "/usr/include/openssl/x509v3.h"
